@@ -211,7 +211,7 @@ fn run_memfs_transcript(ops: &[Op], rep: &mut Report, tag: &str) {
 }
 
 fn norm(r: &Res, root: &str) -> String {
-    format!("{:?}", r).replace(root, "<R>")
+    format!("{:?}", r).replace(root, "<R>").replace(&parent_of(root).unwrap_or_default(), "<P>")
 }
 
 fn run_stdfs_transcript(ops: &[Op], ra: &str, rb: &str, rep: &mut Report, tag: &str) {
@@ -241,8 +241,11 @@ fn run_stdfs_transcript(ops: &[Op], ra: &str, rb: &str, rep: &mut Report, tag: &
         rep.count(&format!("method-stdfs:{}", op.name()), 1);
         let (n1, n2) = (norm(&r1, ra), norm(&r2, rb));
         let (t1, t2) = (comparable(&disk_ntree(ra)), comparable(&disk_ntree(rb)));
-        let t1: Vec<(String, String)> = t1.into_iter().map(|(k, v)| (k.replace(ra, "<R>"), v.replace(ra, "<R>"))).collect();
-        let t2: Vec<(String, String)> = t2.into_iter().map(|(k, v)| (k.replace(rb, "<R>"), v.replace(rb, "<R>"))).collect();
+        // (a link moved upwards can resolve next to the sandbox root, and a copy under follow recreates absolute
+        // target paths below the destination: the differing parent directory names A / B are neutralised too)
+        let (pa, pb) = (parent_of(ra).unwrap(), parent_of(rb).unwrap());
+        let t1: Vec<(String, String)> = t1.into_iter().map(|(k, v)| (k.replace(ra, "<R>").replace(&pa, "<P>"), v.replace(ra, "<R>").replace(&pa, "<P>"))).collect();
+        let t2: Vec<(String, String)> = t2.into_iter().map(|(k, v)| (k.replace(rb, "<R>").replace(&pb, "<P>"), v.replace(rb, "<R>").replace(&pb, "<P>"))).collect();
         if n1 != n2 || t1 != t2 {
             rep.violation(
                 &format!("wrap:{}(Vfs::Stdfs):{}→{}", op.name(), r1.class(), if n1 != n2 { format!("result {}", r2.class()) } else { "tree differs".into() }),
@@ -252,8 +255,10 @@ fn run_stdfs_transcript(ops: &[Op], ra: &str, rb: &str, rep: &mut Report, tag: &
                     ("direct", J::s(n1.chars().take(300).collect::<String>())),
                     ("through_wrapper", J::s(n2.chars().take(300).collect::<String>())),
                     ("workload", J::s(tag)),
+                    ("tree_direct_vs_wrapped", J::s(diff_maps(&t1.iter().cloned().collect(), &t2.iter().cloned().collect()))),
                 ]),
             );
+            break; // the two instances are no longer in the same state: nothing after this can be compared
         }
         if i % 40 == 39 || i + 1 == ops.len() {
             let paths: Vec<String> = disk_ntree(rb).nodes.keys().take(20).cloned().collect();
